@@ -323,6 +323,109 @@ def judge(tname: str, s: str, outcome: Tuple[str, Any]) -> Optional[str]:
 
 
 # --------------------------------------------------------------------------------------------------------------------
+# one symbolic analysis: (load path, type, role, nullable, length) -> verdicts of the two clauses
+# --------------------------------------------------------------------------------------------------------------------
+def analyse_task(task: Tuple[str, str, str, bool, int, List[str]]) -> Dict[str, Any]:  # noqa: C901
+    import time
+    from vc.charprune import CharPruner
+    kind, tname, role, nullable, n, known_keys = task
+    known = set(known_keys)
+    core.boot(full=True)
+    comps = components(tname, role, nullable)
+    prog = loadvc.extract_program(kind, comps, {c: "VARCHAR" for c in comps})
+    eng = loadvc.LoadEngine()
+    eng.max_paths = 20000
+    chars = [eng.decls.const(f"c{i}", smt.INT) for i in range(n)]
+    pre = domain(tname, chars)
+    doc, gen = spec_alts(tname, chars)
+    row = {"Id_1": SV("str", CStr.lit("k"), False), X: SV("str", CStr(chars), False)}
+    eng.assume = list(pre)
+    eng.pruner = CharPruner([c.sx for c in chars], LO, HI, product_limit=60000)
+    out: Dict[str, Any] = {}
+    t0 = time.time()
+    try:
+        paths = eng.explore(lambda: loadvc.run_row(eng, prog, row))
+    except Exception as e:  # noqa: BLE001
+        for which in ("sound", "complete"):
+            out[which] = {"status": UNDECIDED, "detail": f"length {n}: exploration failed: {type(e).__name__}: {e}", "seconds": 0.0,
+                          "backends": [], "set_aside": [], "known": []}
+        out["paths"] = 0
+        return out
+    finally:
+        eng.assume = None
+    out["paths"] = len(paths)
+    out["explore_s"] = round(time.time() - t0, 2)
+    mv = [c.sx for c in chars]
+    fnname = "register_dataframes" if kind == "df" else "load_datapoints_duckdb"
+    aborts = [And(*p.pc) for p in paths if p.kind == "abort"]
+    for which in ("sound", "complete"):
+        res: Dict[str, Any] = {"status": DISCHARGED, "detail": "", "seconds": 0.0, "backends": [], "set_aside": [], "known": []}
+        out[which] = res
+        bad: List[Any] = []
+        for p in paths:
+            if p.kind == "abort":
+                continue
+            o: loadvc.RowOutcome = p.value
+            if which == "sound":
+                if not o.accepted:
+                    continue
+                goal = Or(*[And(c, stored_is(tname, o.stored[X], den, chars, eng)) for c, den in gen]) if gen else False
+            else:
+                if o.accepted:
+                    continue
+                goal = Not(Or(*[c for c, _d in doc])) if doc else True
+            if not is_sym(goal) and goal:
+                continue
+            bad.append(And(*p.pc, Not(goal)))
+        if aborts:
+            r = core.run_smt(smt.query(eng.decls, list(eng.axioms) + list(pre) + [Or(*aborts)], get=mv), timeout=60, tag=f"c19a_{n}")
+            res["seconds"] += r.seconds
+            if r.status != "unsat":
+                s = "".join(chr(core.smt_int(r.model[c.sx])) for c in chars) if r.status == "sat" else "?"
+                why = next((str(p.value) for p in paths if p.kind == "abort"), "")
+                res["status"] = UNDECIDED
+                res["detail"] = f"length {n}: a path leaves the SQL model (e.g. on input {s!r}): {why}"
+                continue
+        if not bad:
+            continue
+        extra: List[Any] = []
+        for _round in range(14):
+            r = core.run_smt(smt.query(eng.decls, list(eng.axioms) + list(pre) + [Or(*bad)] + extra, get=mv), timeout=90,
+                             tag=f"c19_{tname}_{n}")
+            res["seconds"] += r.seconds
+            res["backends"].append(r.backend)
+            if r.status == "unsat":
+                break
+            if r.status == "unknown":
+                res["status"], res["detail"] = UNDECIDED, f"solver unknown at length {n}: {r.raw[:120]}"
+                break
+            s = "".join(chr(core.smt_int(r.model[c.sx])) for c in chars)
+            cls = classify(tname, s)
+            key = f"{tname}::{kind}::{which}::{cls}"
+            real = real_loader("df" if kind == "df" else "csv", comps, [{"Id_1": "k", X: s}])
+            outc = ("accept", real[1][0][1]) if real[0] == "accept" and real[1] else \
+                (("reject", real[1]) if real[0] == "reject" else ("accept", None))
+            wrong = judge(tname, s, outc)
+            if wrong is None:
+                res["status"] = UNDECIDED
+                res["detail"] = (f"counter-model {s!r} (length {n}) does not reproduce on the real loader (real outcome "
+                                 f"{outc[0]} {str(outc[1])[:80]!r}): encoding fault")
+                break
+            if key in known:
+                res["set_aside"].append(f"{key} e.g. {s!r}")
+                res["known"].append((key, s, wrong, r.backend))
+                extra.append(class_exclusion(tname, cls, chars))
+                continue
+            res.update(status=REFUTED, backend=r.backend, finding_key=key, replayed=True,
+                       witness={"input": s, "path": kind, "role": role, "nullable": nullable, "real": wrong},
+                       detail=f"length {n}: counter-model {s!r}", replay_detail=f"real {fnname} on {s!r}: {wrong}")
+            break
+        else:
+            res["status"], res["detail"] = UNDECIDED, "more than 14 known-finding classes in one query"
+    return out
+
+
+# --------------------------------------------------------------------------------------------------------------------
 def main() -> None:  # noqa: C901
     chk = Check("C19", "proof", "loader statements extracted by running the real loaders on a recording connection; "
                 "single-row symbolic evaluation (vc.sqlvc + regex -> SMT) against the documented input formats for all "
@@ -371,109 +474,59 @@ def main() -> None:  # noqa: C901
         del programs[(kind, tname, role, nullable)]
 
     # ---- P tier ------------------------------------------------------------------------------------------------------
-    n_paths = 0
+    # one task per (distinct load program of X, length); programs that differ only in role / nullability share the
+    # analysis when the statements that touch X are textually identical
+    def signature(prog: loadvc.LoadProgram) -> str:
+        return repr((prog.insert[X].sql(dialect="duckdb"), [(c, e.sql(), w.sql() if w is not None else None)
+                                                              for c, e, w in prog.updates],
+                     [c.sql() for c in prog.temporal_cases], prog.not_null.get(X)))
+    sig_of = {k: signature(p) for k, p in programs.items()}
+    rep: Dict[Tuple[str, str], Tuple[str, str, str, bool]] = {}
+    for k in programs:
+        if only and only not in f"{k[0]}::{k[1]}::{k[2]}":
+            continue
+        rep.setdefault((k[1], sig_of[k]), k)
+    tasks = [(k[0], k[1], k[2], k[3], n, sorted(known)) for k in rep.values() for n in lengths(k[1], chk.tier)]
+    tasks.sort(key=lambda t: -t[4])
+    results: Dict[Tuple[str, str, str, bool, int], Dict[str, Any]] = {}
+    for t, r in zip(tasks, pool.map(analyse_task, tasks)):
+        results[(t[0], t[1], t[2], t[3], t[4])] = r
+    n_paths = sum(r.get("paths", 0) for r in results.values())
+    chk.extra["symbolic_analyses"] = len(tasks)
+    chk.extra["distinct_load_programs"] = len(rep)
     for (kind, tname, role, nullable), prog in programs.items():
         if only and only not in f"{kind}::{tname}::{role}":
             continue
         fn = f"{IO}:{'register_dataframes' if kind == 'df' else 'load_datapoints_duckdb'}"
         tag = f"{tname}::{kind}::{role}::{'nullable' if nullable else 'not-null'}"
-        sound = chk.ob(f"{fn}::sound::{tag}", fn, f"[{tag}] every accepted string denotes a value of type {tname} "
-                       "(calendar-valid, permissive reading of the documented formats) and is stored as that value in "
-                       "canonical form; NULL is accepted only in a nullable non-identifier component")
-        compl = chk.ob(f"{fn}::complete::{tag}", fn, f"[{tag}] every documented spelling of an existing value is accepted")
-        for ob in (sound, compl):
-            ob.status, ob.backend = DISCHARGED, ""
-        queries_run = 0
-        backends = set()
-        excluded: Dict[str, List[str]] = {"sound": [], "complete": []}
-        for n in lengths(tname, chk.tier):
-            if sound.status not in (DISCHARGED,) and compl.status not in (DISCHARGED,):
-                break
-            eng = loadvc.LoadEngine()
-            eng.max_paths = 20000
-            chars = [eng.decls.const(f"c{i}", smt.INT) for i in range(n)]
-            pre = domain(tname, chars)
-            doc, gen = spec_alts(tname, chars)
-            row = {"Id_1": SV("str", CStr.lit("k"), False), X: SV("str", CStr(chars), False)}
-            eng.assume = list(pre)
-            try:
-                paths = eng.explore(lambda: loadvc.run_row(eng, prog, row))
-            finally:
-                eng.assume = None
-            n_paths += len(paths)
-            mv = [c.sx for c in chars]
-            for p in paths:
-                for which, ob in (("sound", sound), ("complete", compl)):
-                    if ob.status != DISCHARGED:
-                        continue
-                    if p.kind == "abort":
-                        goal: Any = False
-                        asserts = list(pre) + list(p.pc)
-                    else:
-                        out: loadvc.RowOutcome = p.value
-                        if which == "sound":
-                            if not out.accepted:
-                                continue
-                            goal = Or(*[And(c, stored_is(tname, out.stored[X], den, chars, eng)) for c, den in gen]) if gen else False
-                        else:
-                            if out.accepted:
-                                continue
-                            goal = Not(Or(*[c for c, _d in doc])) if doc else True
-                        if not is_sym(goal) and goal:
-                            continue
-                        asserts = list(pre) + list(p.pc) + [Not(goal)]
-                    # exclusion loop: every class of counterexample listed as known finding is set aside, so that a
-                    # different violation of the same clause is still found
-                    extra: List[Any] = []
-                    for _round in range(12):
-                        r = core.run_smt(smt.query(eng.decls, list(eng.axioms) + asserts + extra, get=mv), timeout=30,
-                                         tag=f"c19_{tname}_{n}")
-                        queries_run += 1
-                        backends.add(r.backend)
-                        ob.seconds += r.seconds
-                        if r.status == "unsat":
-                            break
-                        if r.status == "unknown":
-                            ob.status, ob.detail = UNDECIDED, f"solver unknown at length {n}: {r.raw[:120]}"
-                            break
-                        s = "".join(chr(core.smt_int(r.model[c.sx])) for c in chars)
-                        if p.kind == "abort":
-                            ob.status = UNDECIDED
-                            ob.detail = f"length {n}: a path leaves the SQL model on input {s!r}: {p.value}"
-                            break
-                        cls = classify(tname, s)
-                        key = f"{tname}::{kind}::{which}::{cls}"
-                        rows = [{"Id_1": "k", X: s}]
-                        real = real_loader("df" if kind == "df" else "csv", components(tname, role, nullable), rows)
-                        outc = ("accept", real[1][0][1]) if real[0] == "accept" and real[1] else \
-                            (("reject", real[1]) if real[0] == "reject" else ("accept", None))
-                        wrong = judge(tname, s, outc)
-                        if wrong is None:
-                            ob.status = UNDECIDED
-                            ob.detail = (f"counter-model {s!r} (length {n}) does not reproduce on the real loader "
-                                         f"(real outcome {outc[0]} {str(outc[1])[:80]!r}): encoding fault")
-                            break
-                        if key in known:
-                            excluded[which].append(f"{key} e.g. {s!r}")
-                            kob = next((o for o in chk.obs if o.finding_key == key), None)
-                            if kob is None:
-                                kob = chk.ob(f"{fn}::{which}::{tag}::known::{cls}", fn, ob.clause)
-                                kob.status, kob.finding_key, kob.witness = REFUTED, key, {"input": s, "real": wrong}
-                                kob.replayed, kob.replay_detail, kob.backend = True, f"real loader on {s!r}: {wrong}", r.backend
-                            extra.append(class_exclusion(tname, cls, chars))
-                            continue
-                        ob.status, ob.backend, ob.finding_key = REFUTED, r.backend, key
-                        ob.witness = {"input": s, "path": kind, "role": role, "nullable": nullable, "real": wrong}
-                        ob.detail = f"length {n}: counter-model {s!r}; model outcome: {'accepted' if out.accepted else 'rejected: ' + out.reason}"
-                        ob.replayed, ob.replay_detail = True, f"real {fn.split(':')[1]} on {s!r}: {wrong}"
-                        break
-                    else:
-                        ob.status, ob.detail = UNDECIDED, "more than 12 known-finding classes on one path"
-        for which, ob in (("sound", sound), ("complete", compl)):
-            ob.backend = ob.backend or "+".join(sorted(b for b in backends if b)) or "const-fold"
+        rk = rep[(tname, sig_of[(kind, tname, role, nullable)])]
+        shared = "" if rk == (kind, tname, role, nullable) else \
+            f" (statements on the column identical to {rk[0]}/{rk[2]}/nullable={rk[3]}: analysis shared)"
+        clauses = {"sound": f"[{tag}] every accepted string denotes a value of type {tname} (calendar-valid, permissive "
+                            "reading of the documented formats) and is stored as that value in canonical form",
+                   "complete": f"[{tag}] every documented spelling of an existing value is accepted"}
+        for which in ("sound", "complete"):
+            ob = chk.ob(f"{fn}::{which}::{tag}", fn, clauses[which])
+            ob.status = DISCHARGED
+            backends, setaside = set(), []
+            for n in lengths(tname, chk.tier):
+                r = results[rk + (n,)][which]
+                ob.seconds += r["seconds"] if rk == (kind, tname, role, nullable) else 0.0
+                backends.update(r["backends"])
+                setaside += r["set_aside"]
+                for key, s_, wrong, be in r["known"]:
+                    if not any(o.finding_key == key for o in chk.obs):
+                        kob = chk.ob(f"{fn}::{which}::{tag}::known::{key.split('::')[-1]}", fn, clauses[which])
+                        kob.status, kob.finding_key, kob.witness = REFUTED, key, {"input": s_, "real": wrong}
+                        kob.replayed, kob.replay_detail, kob.backend = True, f"real loader on {s_!r}: {wrong}", be
+                if r["status"] != DISCHARGED and ob.status == DISCHARGED:
+                    ob.status, ob.detail, ob.witness = r["status"], r["detail"], r.get("witness")
+                    ob.finding_key, ob.replayed, ob.replay_detail = r.get("finding_key", ""), r.get("replayed"), r.get("replay_detail", "")
+                    ob.backend = r.get("backend", "")
             if ob.status == DISCHARGED:
-                ob.detail = (f"lengths {lengths(tname, chk.tier)}, all paths unsat" +
-                             (f"; set aside as known findings: {sorted(set(excluded[which]))[:6]}" if excluded[which] else ""))
+                ob.backend = "+".join(sorted(b for b in backends if b)) or "const-fold"
+                ob.detail = (f"lengths {lengths(tname, chk.tier)}: merged path queries all unsat{shared}" +
+                             (f"; set aside as known findings: {sorted(set(setaside))[:6]}" if setaside else ""))
         # NULL cell
         nob = chk.ob(f"{fn}::null::{tag}", fn, f"[{tag}] a NULL cell is stored as NULL iff the component is a nullable "
                      "non-identifier, and rejected otherwise")
@@ -596,7 +649,7 @@ def conformance(chk: Check, programs: Dict[Any, loadvc.LoadProgram], rnd: random
                           f"DuckDB {r}")
                 return
             if m.accepted and tname in ("Time_Period", "Duration", "Time"):
-                mv = m.stored[X].v.concrete() if m.stored[X].sort == "str" else None
+                mv = m.stored[X].v.concrete() if m.stored[X].sort == "str" and m.stored[X].null is False else None
                 if mv != r[1]:
                     chk.fault(f"model/DuckDB value mismatch on {s!r} ({tname}/{kind}): model {mv!r}, DuckDB {r[1]!r}")
                     return
